@@ -1256,3 +1256,216 @@ Proof.
   cbv zeta. split; [exact rr_inv_raw_open|]. split; [exact rr_inv_rd_header|]. split; [exact rr_inv_rd_payload|].
   split; [exact rr_inv_rd_chunk|]. split; [exact rr_inv_chunk_seek | exact rr_inv_seek_end].
 Qed.
+
+(* ================================================================ the precise code of a rejected chunk read *)
+(* jls_raw_rd_header depends on the file only through the 32 bytes at the chunk offset *)
+Lemma rr_rd_header_same_bytes : forall s t,
+  rp_flen s = rp_len (rp_file s) -> rp_flen t = rp_len (rp_file t) -> rp_r t = rp_r s ->
+  fm_sub (rp_offset (rp_r s)) 32 (rp_file t) = fm_sub (rp_offset (rp_r s)) 32 (rp_file s) ->
+  snd (rp_raw_rd_header t) = snd (rp_raw_rd_header s) /\
+  rp_r (fst (rp_raw_rd_header t)) = rp_r (fst (rp_raw_rd_header s)) /\
+  rp_file (fst (rp_raw_rd_header t)) = rp_file t /\ rp_flen (fst (rp_raw_rd_header t)) = rp_flen t /\
+  rp_file (fst (rp_raw_rd_header s)) = rp_file s /\ rp_flen (fst (rp_raw_rd_header s)) = rp_flen s.
+Proof.
+  intros s t Hls Hlt Hr Hb. unfold rp_raw_rd_header. rewrite Hr.
+  destruct (rp_r_valid (rp_r s)); [cbn [fst snd]; rewrite Hr; repeat split|].
+  destruct (rp_fend (rp_r s) <=? rp_fpos (rp_r s)); [cbn [fst snd]; rewrite Hr; repeat split|].
+  destruct (rp_offset (rp_r s) =? rp_fpos (rp_r s)) eqn:E.
+  - apply N.eqb_eq in E.
+    rewrite (rr_bk_fread_eq (rp_io_set_r s _) SIZEOF_chunk_header) by exact Hls.
+    rewrite (rr_bk_fread_eq (rp_io_set_r t _) SIZEOF_chunk_header) by exact Hlt.
+    cbn [rp_io_set_r rp_r rp_file rp_r_set_offset rp_fpos]. rewrite Hr, <- E. change SIZEOF_chunk_header with 32. rewrite Hb.
+    destruct (negb (fm_ch_complete (fm_sub (rp_offset (rp_r s)) 32 (rp_file s)))); [cbn; repeat split|].
+    destruct (negb (fm_ch_crc_ok (fm_sub (rp_offset (rp_r s)) 32 (rp_file s)))); cbn; repeat split.
+  - rewrite (rr_bk_fread_eq (rp_io_set_r (rp_io_set_r s _) _) SIZEOF_chunk_header) by exact Hls.
+    rewrite (rr_bk_fread_eq (rp_io_set_r (rp_io_set_r t _) _) SIZEOF_chunk_header) by exact Hlt.
+    cbn [rp_io_set_r rp_r rp_file rp_r_set_offset rp_r_set_fpos rp_fpos]. change SIZEOF_chunk_header with 32. rewrite Hb.
+    destruct (negb (fm_ch_complete (fm_sub (rp_offset (rp_r s)) 32 (rp_file s)))); [cbn; repeat split|].
+    destruct (negb (fm_ch_crc_ok (fm_sub (rp_offset (rp_r s)) 32 (rp_file s)))); cbn; repeat split.
+Qed.
+
+Lemma rr_rd_chunk_hdr_rc : forall s,
+  let s0 := rp_io_set_cur s {| wm_ck_offset := rp_offset (rp_r s); wm_ck_hdr := wm_hdr_set_tag (wm_ck_hdr (rp_cur s)) JLS_TAG_INVALID |} in
+  (snd (rp_raw_rd_header s0) <> 0 -> snd (rp_rd_chunk s) = snd (rp_raw_rd_header s0)) /\
+  (snd (rp_rd_chunk s) = 0 -> snd (rp_raw_rd_header s0) = 0).
+Proof.
+  intro s. cbv zeta. unfold rp_rd_chunk.
+  destruct (rp_raw_rd_header (rp_io_set_cur s _)) as [s1 rc1]. cbn [snd].
+  destruct (rc1 =? 0) eqn:E; cbn [negb].
+  - apply N.eqb_eq in E. split; [intro H; now elim H | intros _; exact E].
+  - apply N.eqb_neq in E. cbn [snd]. split; [reflexivity | intro H; now elim E].
+Qed.
+
+Theorem rr_chunk_header_corruption_code : forall (s t s' : rp_io) (e : list N),
+  rr_inv s -> rr_inv t -> rp_r t = rp_r s -> bytes_ok (rp_file s) ->
+  rp_rd_chunk s = (s', 0) ->
+  bytes_ok e -> length e = 32%nat -> le e <> 0 ->
+  ((weight (le e) <= 3)%nat \/
+   (exists (v : N) (k : nat), 0 < v /\ v < 2 ^ 32 /\ (k <= 256)%nat /\ le e = N.shiftl v (N.of_nat k))) ->
+  rp_file t = firstn (N.to_nat (rp_offset (rp_r s))) (rp_file s)
+              ++ xor_bytes (firstn 32 (skipn (N.to_nat (rp_offset (rp_r s))) (rp_file s))) e
+              ++ skipn (N.to_nat (rp_offset (rp_r s)) + 32) (rp_file s) ->
+  snd (rp_rd_chunk t) = JLS_ERROR_MESSAGE_INTEGRITY.
+Proof.
+  intros s t s' e His Hit Hr Hbf Hs Hbe Hle Hnz Hcls Hft.
+  destruct (rp_r_valid (rp_r s)) eqn:Ev.
+  - (* a cached header would have to be CRC-valid in both files *)
+    exfalso. assert (Hne : snd (rp_rd_chunk t) <> 0).
+    { apply (rr_chunk_corruption_not_accepted s t s' His Hit Hr Hbf Hs). left. exists e. repeat split; assumption. }
+    destruct His as [_ Hvs]. destruct Hit as [_ Hvt]. rewrite Hr in Hvt.
+    destruct (Hvs Ev) as (Hl32 & Hks & _). destruct (Hvt Ev) as (_ & Hkt & _).
+    set (off := rp_offset (rp_r s)) in *. set (hb := fm_sub off 32 (rp_file s)) in *.
+    assert (Hfull : off + 32 <= N.of_nat (length (rp_file s))) by (apply rr_sub_full; [exact Hl32|lia]).
+    assert (Hhb : firstn 32 (skipn (N.to_nat off) (rp_file s)) = hb) by reflexivity.
+    assert (Hxl : length (xor_bytes hb e) = 32%nat) by (rewrite xor_bytes_length; congruence).
+    assert (Hhb' : fm_sub off 32 (rp_file t) = xor_bytes hb e).
+    { rewrite Hft, Hhb.
+      replace (fm_sub off 32) with (fm_sub off (N.of_nat (length (xor_bytes hb e)))) by (rewrite Hxl; reflexivity).
+      apply rr_sub_app3. rewrite firstn_length. lia. }
+    rewrite Hhb' in Hkt.
+    rewrite (rr_ch_crc_detect hb e Hl32 Hle (rr_bytes_ok_sub _ _ _ Hbf) Hbe Hks Hnz Hcls) in Hkt. discriminate.
+  - destruct (rr_rd_chunk_hdr_rc s) as [_ Hs0]. destruct (rr_rd_chunk_hdr_rc t) as [Ht0 _]. cbv zeta in Hs0, Ht0.
+    rewrite Hs in Hs0. specialize (Hs0 eq_refl).
+    set (cs := {| wm_ck_offset := rp_offset (rp_r s); wm_ck_hdr := wm_hdr_set_tag (wm_ck_hdr (rp_cur s)) JLS_TAG_INVALID |}) in *.
+    set (ct := {| wm_ck_offset := rp_offset (rp_r t); wm_ck_hdr := wm_hdr_set_tag (wm_ck_hdr (rp_cur t)) JLS_TAG_INVALID |}) in *.
+    assert (Hd : snd (rp_raw_rd_header (rp_io_set_cur t ct)) = JLS_ERROR_MESSAGE_INTEGRITY).
+    { apply (rr_header_corruption_detected (rp_io_set_cur s cs) (rp_io_set_cur t ct) e); try assumption.
+      - apply His. - apply Hit. }
+    rewrite Ht0; [exact Hd | rewrite Hd; discriminate].
+Qed.
+
+Theorem rr_chunk_payload_corruption_code : forall (s t s' : rp_io) (e esb pad' : list N),
+  rr_inv s -> rr_inv t -> rp_r t = rp_r s -> bytes_ok (rp_file s) ->
+  rp_rd_chunk s = (s', 0) ->
+  let off := rp_offset (rp_r s) in
+  let pl := fm_payload_length (wm_ck_hdr (rp_cur s')) in
+  let dl := fm_disk_len pl in
+  let p := off + 32 in
+  fm_tag (wm_ck_hdr (rp_cur s')) <> JLS_TAG_INVALID -> pl <> 0 ->
+  bytes_ok e -> bytes_ok esb ->
+  length e = N.to_nat pl -> length esb = 4%nat -> length pad' = N.to_nat (dl - pl - 4) ->
+  N.of_nat (8 * length (e ++ esb)) <= 2147483647 -> le (e ++ esb) <> 0 ->
+  ((weight (le (e ++ esb)) <= 3)%nat \/
+   (exists (v : N) (k : nat), 0 < v /\ v < 2 ^ 32 /\ (k <= 8 * length (e ++ esb))%nat /\
+      le (e ++ esb) = N.shiftl v (N.of_nat k))) ->
+  rp_file t = firstn (N.to_nat p) (rp_file s)
+              ++ xor_bytes (firstn (N.to_nat pl) (skipn (N.to_nat p) (rp_file s))) e
+              ++ pad'
+              ++ xor_bytes (firstn 4 (skipn (N.to_nat (p + dl - 4)) (rp_file s))) esb
+              ++ skipn (N.to_nat (p + dl)) (rp_file s) ->
+  snd (rp_rd_chunk t) = JLS_ERROR_MESSAGE_INTEGRITY.
+Proof.
+  intros s t s' e esb pad' His Hit Hr Hbf Hs off pl dl p Htag Hpl Hbe Hbs Hle Hl4 Hlp Hn Hnz Hcls Hft.
+  pose proof (rr_rd_chunk_ok s s' His Hs) as Ks. cbv zeta in Ks. fold off pl in Ks.
+  destruct Ks as (_ & _ & _ & (Hl32 & _ & _) & _ & _ & _).
+  assert (Hfull : off + 32 <= N.of_nat (length (rp_file s))) by (apply rr_sub_full; [exact Hl32|lia]).
+  assert (Hhbt : fm_sub off 32 (rp_file t) = fm_sub off 32 (rp_file s)).
+  { rewrite Hft. subst p. apply rr_sub_prefix. exact Hfull. }
+  unfold rp_rd_chunk in Hs |- *. rewrite Hr.
+  set (cs := {| wm_ck_offset := rp_offset (rp_r s); wm_ck_hdr := wm_hdr_set_tag (wm_ck_hdr (rp_cur s)) JLS_TAG_INVALID |}) in *.
+  set (ct := {| wm_ck_offset := rp_offset (rp_r s); wm_ck_hdr := wm_hdr_set_tag (wm_ck_hdr (rp_cur t)) JLS_TAG_INVALID |}).
+  destruct (rr_rd_header_same_bytes (rp_io_set_cur s cs) (rp_io_set_cur t ct) (proj1 His) (proj1 Hit) Hr Hhbt) as (E1 & E2 & E3 & E4 & E5 & E6).
+  destruct (rp_raw_rd_header (rp_io_set_cur s cs)) as [s1 rc1] eqn:Es1.
+  destruct (rp_raw_rd_header (rp_io_set_cur t ct)) as [t1 rc1'] eqn:Et1.
+  cbn [fst snd rp_io_set_cur rp_file rp_flen] in E1, E2, E3, E4, E5, E6. subst rc1'.
+  destruct (rr_rd_header_spec _ _ _ (rr_inv_set_cur s cs His) Es1) as (_ & _ & _ & _ & _ & _ & _ & Hok1).
+  destruct (rc1 =? 0) eqn:Erc1; cbn [negb] in Hs |- *; [|inversion Hs; subst; discriminate].
+  apply N.eqb_eq in Erc1. destruct (Hok1 Erc1) as [Hoff1 _]. cbn [rp_io_set_cur rp_r] in Hoff1.
+  set (s2 := rp_io_set_cur s1 {| wm_ck_offset := wm_ck_offset cs; wm_ck_hdr := rp_hdr (rp_r s1) |}) in *.
+  set (t2 := rp_io_set_cur t1 {| wm_ck_offset := wm_ck_offset ct; wm_ck_hdr := rp_hdr (rp_r t1) |}).
+  destruct (rp_raw_rd_payload s2 JLS_BUF_DEFAULT_SIZE) as [s3 rc2] eqn:Es3.
+  assert (Hrc2 : rc2 = 0 /\ wm_ck_hdr (rp_cur s') = rp_hdr (rp_r s1)).
+  { assert (Hinv2 : rr_inv s2).
+    { apply rr_inv_set_cur. exact (proj1 (rr_rd_header_spec _ _ _ (rr_inv_set_cur s cs His) Es1)). }
+    destruct (rr_rd_payload_spec _ _ _ _ Hinv2 Es3) as (_ & _ & _ & Hc3 & _).
+    destruct (rc2 =? JLS_ERROR_TOO_BIG).
+    - match type of Hs with (if ?c then _ else _) = _ => destruct c end; inversion Hs.
+    - destruct (rc2 =? 0) eqn:E0.
+      + apply N.eqb_eq in E0. inversion Hs; subst s'. split; [exact E0|].
+        cbn [rp_io_set_buf rp_cur]. rewrite Hc3. reflexivity.
+      + apply N.eqb_neq in E0. inversion Hs; subst. now elim E0. }
+  destruct Hrc2 as [Hrc2 Hhdr]. subst rc2.
+  assert (Hd : snd (rp_raw_rd_payload t2 JLS_BUF_DEFAULT_SIZE) = JLS_ERROR_MESSAGE_INTEGRITY).
+  { assert (Hv2 : rp_r_valid (rp_r s2) = true).
+    { unfold rp_r_valid. cbn [s2 rp_io_set_cur rp_r]. rewrite <- Hhdr. apply negb_true_iff. apply N.eqb_neq. exact Htag. }
+    assert (Hpl2 : fm_payload_length (rp_hdr (rp_r s2)) = pl) by (cbn [s2 rp_io_set_cur rp_r]; rewrite <- Hhdr; reflexivity).
+    assert (Hoff2 : rp_offset (rp_r s2) = off) by (cbn [s2 rp_io_set_cur rp_r]; exact Hoff1).
+    apply (rr_payload_corruption_detected s2 t2 JLS_BUF_DEFAULT_SIZE e esb pad').
+    - cbn [s2 rp_io_set_cur rp_flen rp_file]. rewrite E5, E6. apply His.
+    - cbn [t2 rp_io_set_cur rp_flen rp_file]. rewrite E3, E4. apply Hit.
+    - cbn [s2 t2 rp_io_set_cur rp_r]. exact E2.
+    - exact Hv2.
+    - rewrite Hpl2. exact Hpl.
+    - cbn [s2 rp_io_set_cur rp_file]. rewrite E5. exact Hbf.
+    - exact Hbe.
+    - exact Hbs.
+    - rewrite Hpl2. exact Hle.
+    - exact Hl4.
+    - rewrite Hpl2. exact Hlp.
+    - rewrite Hpl2, Hoff2. cbn [s2 t2 rp_io_set_cur rp_file]. rewrite E3, E5. exact Hft.
+    - exact Hn.
+    - exact Hnz.
+    - exact Hcls.
+    - rewrite Es3. reflexivity. }
+  destruct (rp_raw_rd_payload t2 JLS_BUF_DEFAULT_SIZE) as [t3 rc2'] eqn:Et3. cbn [snd] in Hd. subst rc2'.
+  reflexivity.
+Qed.
+
+(* expanded-invariant forms *)
+Lemma rr_C04_chunk_header_code : forall (s t s' : rp_io) (e : list N),
+  rp_flen s = rp_len (rp_file s) ->
+  (rp_r_valid (rp_r s) = true ->
+     length (fm_sub (rp_offset (rp_r s)) 32 (rp_file s)) = 32%nat /\
+     fm_ch_crc_ok (fm_sub (rp_offset (rp_r s)) 32 (rp_file s)) = true /\
+     rp_hdr (rp_r s) = fm_ch_fields (fm_sub (rp_offset (rp_r s)) 32 (rp_file s))) ->
+  rp_flen t = rp_len (rp_file t) ->
+  (rp_r_valid (rp_r t) = true ->
+     length (fm_sub (rp_offset (rp_r t)) 32 (rp_file t)) = 32%nat /\
+     fm_ch_crc_ok (fm_sub (rp_offset (rp_r t)) 32 (rp_file t)) = true /\
+     rp_hdr (rp_r t) = fm_ch_fields (fm_sub (rp_offset (rp_r t)) 32 (rp_file t))) ->
+  rp_r t = rp_r s -> bytes_ok (rp_file s) ->
+  rp_rd_chunk s = (s', 0) ->
+  bytes_ok e -> length e = 32%nat -> le e <> 0 ->
+  ((weight (le e) <= 3)%nat \/
+   (exists (v : N) (k : nat), 0 < v /\ v < 2 ^ 32 /\ (k <= 256)%nat /\ le e = N.shiftl v (N.of_nat k))) ->
+  rp_file t = firstn (N.to_nat (rp_offset (rp_r s))) (rp_file s)
+              ++ xor_bytes (firstn 32 (skipn (N.to_nat (rp_offset (rp_r s))) (rp_file s))) e
+              ++ skipn (N.to_nat (rp_offset (rp_r s)) + 32) (rp_file s) ->
+  snd (rp_rd_chunk t) = JLS_ERROR_MESSAGE_INTEGRITY.
+Proof.
+  intros s t s' e H1 H2 H3 H4. apply rr_chunk_header_corruption_code; apply rr_inv_expand; assumption.
+Qed.
+
+Lemma rr_C04_chunk_payload_code : forall (s t s' : rp_io) (e esb pad' : list N),
+  rp_flen s = rp_len (rp_file s) ->
+  (rp_r_valid (rp_r s) = true ->
+     length (fm_sub (rp_offset (rp_r s)) 32 (rp_file s)) = 32%nat /\
+     fm_ch_crc_ok (fm_sub (rp_offset (rp_r s)) 32 (rp_file s)) = true /\
+     rp_hdr (rp_r s) = fm_ch_fields (fm_sub (rp_offset (rp_r s)) 32 (rp_file s))) ->
+  rp_flen t = rp_len (rp_file t) ->
+  (rp_r_valid (rp_r t) = true ->
+     length (fm_sub (rp_offset (rp_r t)) 32 (rp_file t)) = 32%nat /\
+     fm_ch_crc_ok (fm_sub (rp_offset (rp_r t)) 32 (rp_file t)) = true /\
+     rp_hdr (rp_r t) = fm_ch_fields (fm_sub (rp_offset (rp_r t)) 32 (rp_file t))) ->
+  rp_r t = rp_r s -> bytes_ok (rp_file s) ->
+  rp_rd_chunk s = (s', 0) ->
+  let off := rp_offset (rp_r s) in
+  let pl := fm_payload_length (wm_ck_hdr (rp_cur s')) in
+  let dl := fm_disk_len pl in
+  let p := off + 32 in
+  fm_tag (wm_ck_hdr (rp_cur s')) <> JLS_TAG_INVALID -> pl <> 0 ->
+  bytes_ok e -> bytes_ok esb ->
+  length e = N.to_nat pl -> length esb = 4%nat -> length pad' = N.to_nat (dl - pl - 4) ->
+  N.of_nat (8 * length (e ++ esb)) <= 2147483647 -> le (e ++ esb) <> 0 ->
+  ((weight (le (e ++ esb)) <= 3)%nat \/
+   (exists (v : N) (k : nat), 0 < v /\ v < 2 ^ 32 /\ (k <= 8 * length (e ++ esb))%nat /\
+      le (e ++ esb) = N.shiftl v (N.of_nat k))) ->
+  rp_file t = firstn (N.to_nat p) (rp_file s)
+              ++ xor_bytes (firstn (N.to_nat pl) (skipn (N.to_nat p) (rp_file s))) e
+              ++ pad'
+              ++ xor_bytes (firstn 4 (skipn (N.to_nat (p + dl - 4)) (rp_file s))) esb
+              ++ skipn (N.to_nat (p + dl)) (rp_file s) ->
+  snd (rp_rd_chunk t) = JLS_ERROR_MESSAGE_INTEGRITY.
+Proof.
+  intros s t s' e esb pad' H1 H2 H3 H4. apply rr_chunk_payload_corruption_code; apply rr_inv_expand; assumption.
+Qed.
